@@ -86,8 +86,12 @@ class PersistentRemoteWorker(PersistentWorker, RemoteWorker):
         while True:
             try:
                 result = recv_msg(self._socket, comment='data: result')
-            except ConnectionClosedError:
-                logger.debug('Connection closed by the remote peer')
+            except Exception as e:
+                if isinstance(e, ConnectionClosedError):
+                    logger.debug('Connection closed by the remote peer')
+                else:
+                    # a message which cannot be recreated on this side, nothing sensible can follow
+                    logger.exception('Could not recreate a message sent by the child')
                 self._socket_closed = True
                 self._result = (False, None)
                 if not last_partial_result_signalled:
@@ -101,7 +105,9 @@ class PersistentRemoteWorker(PersistentWorker, RemoteWorker):
                     logger.debug('New message signalling end of partial results')
                     self._results_pipe.child_end.put(result)
                     last_partial_result_signalled = True
-                    assert remote_counter == counter, f'{remote_counter} {counter}'
+                    if remote_counter != counter:
+                        # the child counts a result before sending it, a terminated child might have counted one which never left
+                        logger.debug(f'The child reports {remote_counter} results, {counter} received')
                     assert value is None
                     assert wid == self.id
                 else:
@@ -197,7 +203,8 @@ class PersistentRemoteWorker(PersistentWorker, RemoteWorker):
 
     def _cleanup(self):
         try:
-            send_msg(self._socket, (self._counter, False, None, self.id))
+            # _counter does not exist if the child is terminated before it could initialize itself
+            send_msg(self._socket, (getattr(self, '_counter', 0), False, None, self.id))
         except ConnectionClosedError:
             pass
 
